@@ -78,3 +78,21 @@ def valid_pe(nsec=1, payload=b"\xcc"):
     hdr = bytes(dos) + b"PE\0\0" + coff + bytes(opt) + secs
     body = (payload * (0x200 * nsec // len(payload) + 1))[: 0x200 * nsec]
     return hdr + b"\0" * (hdr_len - len(hdr)) + body
+
+
+def pe_holding(inner: bytes, at: int):
+    """A structurally valid one-section image whose section raw data holds `inner` at offset `at` of the section (a dropper carrying
+    a second image).  Returns (image, offset of inner in image)."""
+    hdr_len = 0x200
+    size = ((at + len(inner) + 0x40) // 0x200 + 1) * 0x200
+    dos = bytearray(b"MZ" + b"\0" * 62)
+    struct.pack_into("<I", dos, 0x3C, 0x40)
+    coff = struct.pack("<HHIIIHH", 0x14C, 1, 0, 0, 0, 0xE0, 0x102)
+    opt = bytearray(0xE0)
+    struct.pack_into("<H", opt, 0, 0x10B)
+    struct.pack_into("<I", opt, 92, 16)
+    secs = struct.pack("<8sIIIIIIHHI", b".rsrc", size, 0x1000, size, hdr_len, 0, 0, 0, 0, 0x40000040)
+    hdr = bytes(dos) + b"PE\0\0" + coff + bytes(opt) + secs
+    body = bytearray(b"\xcc" * size)
+    body[at:at + len(inner)] = inner
+    return hdr + b"\0" * (hdr_len - len(hdr)) + bytes(body), hdr_len + at
